@@ -241,6 +241,7 @@ def _bz(*zs):
 
 op('spin', n=3, call=lambda a, b, c: a.spin(b, c), fail=lambda v: _bz(_zero(v[1]), np.zeros(np.shape(v[2]), bool),
                                                                        np.zeros(np.shape(v[0])[:-1], bool)), ref=None)
+op('with_norm2', n=2, call=lambda a, b: a.with_norm(b), fail=lambda v: (0, _zero(v[0])), ref=None)
 op('sep', n=2, call=lambda a, b: a.sep(b), fail=lambda v: _bz(_zero(v[0]), _zero(v[1])), ref=None)
 op('cpm', n=1, call=lambda a: a.cross_product_as_matrix(), fail=None, ref=None)
 op('vector_scale', n=2, call=lambda a, b: a.vector_scale(b), fail=lambda v: (1, _zero(v[1])), ref=None)
@@ -292,6 +293,8 @@ op('imatdiv', n=2, call=_inplace_call(_op.itruediv), fail=lambda v: (1, singular
 op('imatdiv3', n=2, call=_inplace_call(_op.itruediv), fail=None, ref=None, inplace='matdiv')   # Matrix3: reciprocal = transpose
 op('ivmul', n=2, call=_inplace_call(_op.imul), fail=None, ref=None, inplace='vmul')
 op('ivdiv', n=2, call=_inplace_call(_op.itruediv), fail=_div_fail, ref=None, inplace='vdiv')
+op('ivmod', n=2, call=_inplace_call(_op.imod), fail=_div_fail, ref=None, inplace='mod')
+op('ivfloordiv', n=2, call=_inplace_call(_op.ifloordiv), fail=_div_fail, ref=None, inplace='floordiv')
 op('ivadd', n=2, call=_inplace_call(_op.iadd), fail=None, ref=None, inplace='add')
 op('ivsub', n=2, call=_inplace_call(_op.isub), fail=None, ref=None, inplace='sub')
 
